@@ -26,8 +26,13 @@ def run(ctx):
         arr = np.array(data, dtype=float) * scale
         rnd.shuffle(data)
         with deadline(60):
-            lo, hi = shortest_int(np.array(data, dtype=float) * scale, pnum / pden)
-        lo_i, hi_i = lo / scale, hi / scale
+            ret = shortest_int(np.array(data, dtype=float) * scale, pnum / pden)
+        ret = np.asarray(ret, dtype=float).ravel()
+        if ret.size != 2:
+            ret = np.array([np.nan, np.nan])
+        lo_i, hi_i = float(ret[0]) / scale, float(ret[1]) / scale
+        if not (np.isfinite(lo_i) and np.isfinite(hi_i)):
+            lo_i = hi_i = 0.5                 # malformed result: reported by TLC as "not order statistics"
         ok = abs(lo_i - round(lo_i)) < 1e-6 and abs(hi_i - round(hi_i)) < 1e-6
         events.append({"kind": "si", "s": sorted(int(v) for v in data), "pnum": pnum, "pden": pden,
                        "lo": int(round(lo_i)) if ok else -10 ** 9, "hi": int(round(hi_i)) if ok else -10 ** 9})
